@@ -127,7 +127,7 @@ func (g *genCfg) bytes() []byte {
 }
 
 func isEnumType(t reflect.Type) bool {
-	return t.Kind() == reflect.Int64 && t.Name() != "int64"
+	return (t.Kind() == reflect.Int64 && t.Name() != "int64") || (t.Kind() == reflect.Int && t.Name() != "int")
 }
 
 // gen fills v (addressable) with a random value.
@@ -256,6 +256,16 @@ func (g *genCfg) gen(v reflect.Value) {
 			e := reflect.New(t.Elem()).Elem()
 			sub.gen(e)
 			m.SetMapIndex(k, e)
+		}
+		// maps with a history: some entries deleted again (tombstones; the count is below what the
+		// table was grown for)
+		if m.Len() >= 4 && g.r.Intn(5) == 0 {
+			keys := m.MapKeys()
+			for i, k := range keys {
+				if i%3 == 0 && m.Len() > g.minLen {
+					m.SetMapIndex(k, reflect.Value{})
+				}
+			}
 		}
 		v.Set(m)
 	case reflect.Struct:
